@@ -182,6 +182,10 @@ def ensure_makefile():
     cur = open(proj).read() if os.path.exists(proj) else ''
     if cur != want or not os.path.exists(os.path.join(COQ, 'Makefile')):
         open(proj, 'w').write(want)
+        try:
+            os.remove(os.path.join(COQ, '.Makefile.d'))      # dependencies computed for another file list
+        except OSError:
+            pass
         rc, out = sh('coq_makefile -f _CoqProject -o Makefile', cwd=COQ)
         if rc != 0:
             raise RuntimeError('coq_makefile failed: ' + out)
